@@ -127,6 +127,29 @@ def universe(case):
 # ---------------------------------------------------------------------------------------------------------------------
 # the real code
 
+def shape(x):
+    """types and sharing structure of a saved state (values left out): what `==` on bundles does not see"""
+    seen = {}
+    out = []
+
+    def go(v):
+        if isinstance(v, (dict, list, tuple, set, frozenset)):
+            if isinstance(v, (dict, list, set)):           # (sharing matters for what can be changed in place)
+                if id(v) in seen:
+                    out.append(('ref', seen[id(v)]))
+                    return
+                seen[id(v)] = len(seen)
+            out.append(('dict' if type(v).__name__ == 'Bundle' else type(v).__name__, len(v)))     # (a Bundle is the saved-state dict)
+            items = sorted(v.items(), key=lambda kv: repr(kv[0])) if isinstance(v, dict) else \
+                sorted(v, key=repr) if isinstance(v, (set, frozenset)) else v
+            for it in items:
+                go(it[1] if isinstance(v, dict) else it)
+        else:
+            out.append(type(v).__name__)
+    go(x)
+    return out
+
+
 class Runner:
     """both real persisters, the live processes, the harness's own snapshots and the reference dictionary"""
 
@@ -177,6 +200,10 @@ class Runner:
             return st
         exp = self.store.get((p, t))
         if exp is not None and self.refs.get((p, exp)) == b:
+            # equal - and of the same SHAPE: the same container types (a defaultdict stays one) and the same sharing (one list
+            # stored under two names is still one list)
+            if shape(self.refs[(p, exp)]) != shape(b):
+                return f'ok:{exp}:reshaped'
             return f'ok:{exp}'
         return f'ok:{self.match(b, p)}'
 
